@@ -55,6 +55,16 @@ func (l *Lexer) backup() {
 	_ = l.input.UnreadRune()
 }
 
+// lookAhead makes sure that a rune that was read but not consumed, or the end of the input, is pending:
+// tokens that end in themselves (punctuation, invalid characters) are recognised without looking further.
+func (l *Lexer) lookAhead() {
+	if l.input.empty() && l.input.err == nil {
+		if _, err := l.rawNext(); err == nil {
+			l.backup()
+		}
+	}
+}
+
 func (l *Lexer) accept(r rune) {
 	_, _ = l.buf.WriteRune(r)
 }
